@@ -97,7 +97,122 @@ func refEncode(buf []byte, k octTok) []byte {
 	panic("bad type")
 }
 
+// octWrite performs the write call of one typed value.
+func octWrite(stream *iox.OctetsStream, writer *iox.OctetsWriter, k octTok) error {
+	switch k.typ {
+	case 'b':
+		if k.viaStream {
+			return stream.WriteBool(k.val == "1")
+		}
+		return writer.WriteBool(k.val == "1")
+	case 'y':
+		if k.viaStream {
+			return stream.WriteByte(byte(atoi(k.val)))
+		}
+		return writer.WriteByte(byte(atoi(k.val)))
+	case 'h':
+		if k.viaStream {
+			return stream.WriteInt16(int16(atoi(k.val)))
+		}
+		return writer.WriteInt16(int16(atoi(k.val)))
+	case 'i':
+		if k.viaStream {
+			return stream.WriteInt32(int32(atoi(k.val)))
+		}
+		return writer.WriteInt32(int32(atoi(k.val)))
+	case 'l':
+		if k.viaStream {
+			return stream.WriteInt64(int64(atoi(k.val)))
+		}
+		return writer.WriteInt64(int64(atoi(k.val)))
+	case 'v':
+		return writer.Write7BitEncodedInt(int32(atoi(k.val)))
+	case 'B':
+		return writer.WriteBytes(unhex(k.val))
+	case 'S':
+		return writer.WriteString(string(unhex(k.val)))
+	}
+	panic("bad type")
+}
+
+// octUnread is stream.Bytes(); ok = false if the call panicked (position beyond len).
+func octUnread(stream *iox.OctetsStream) (b []byte, ok bool) {
+	defer func() {
+		if r := recover(); r != nil {
+			b, ok = nil, false
+		}
+	}()
+	return stream.Bytes(), true
+}
+
+// c11i <schedule over W R T> <api><type>:<value> ... : ONE stream used interleaved. W = write the
+// next value, R = read the oldest value not yet read with the matching call, T = stream.Tidy().
+// After every step Position()/Len() are recorded, and stream.Bytes() (the unread bytes) is
+// compared with encoding/binary's encoding of the values written and not yet read.
+func octInterleaved(toks []string) string {
+	if len(toks) < 2 {
+		return "BADCASE"
+	}
+	var stream = &iox.OctetsStream{}
+	var writer = iox.NewOctetsWriter(stream)
+	var reader = iox.NewOctetsReader(stream)
+	var ks []octTok
+	for _, t := range toks[2:] {
+		ks = append(ks, parseOctTok(t))
+	}
+	var steps []string
+	var werr, refs = "nil", "ok"
+	var nextW, nextR = 0, 0
+	var pendRef []byte // encoding/binary encoding of the values written and not yet read
+	for n, c := range toks[1] {
+		switch c {
+		case 'W':
+			if nextW >= len(ks) {
+				return "BADCASE"
+			}
+			var k = ks[nextW]
+			nextW++
+			if err := octWrite(stream, writer, k); err != nil {
+				werr = err.Error()
+			}
+			pendRef = refEncode(pendRef, k)
+			steps = append(steps, fmt.Sprintf("w%d/%d", stream.Position(), stream.Len()))
+		case 'R':
+			if nextR >= nextW {
+				return "BADCASE"
+			}
+			var k = ks[nextR]
+			nextR++
+			var p0 = stream.Position()
+			var r = octCall(func() string { return octRead(stream, reader, k.viaStream, k.typ, 0, nil) })
+			var sz = len(refEncode(nil, k))
+			if sz <= len(pendRef) {
+				pendRef = pendRef[sz:]
+			} else {
+				pendRef = nil
+			}
+			steps = append(steps, fmt.Sprintf("R%d~%s@%d/%d+0", p0, r, stream.Position(), stream.Len()))
+		case 'T':
+			stream.Tidy()
+			steps = append(steps, fmt.Sprintf("t%d/%d", stream.Position(), stream.Len()))
+		default:
+			return "BADCASE"
+		}
+		if unread, ok := octUnread(stream); refs == "ok" && (!ok || !bytes.Equal(unread, pendRef)) {
+			refs = fmt.Sprintf("step%d", n)
+			if !ok {
+				refs += "(Bytes()-panicked)"
+			}
+		}
+	}
+	var unread, _ = octUnread(stream)
+	return fmt.Sprintf("S=%s P=%d/%d U=%s WERR=%s REF=%s", strings.Join(steps, ";"), stream.Position(), stream.Len(),
+		hexOrDash(unread), werr, refs)
+}
+
 func init() {
+	register("c11i", octInterleaved)
+
 	// c11 <api><type>:<value> ... : write all values, then read them back with the matching calls
 	register("c11", func(toks []string) string {
 		var stream = &iox.OctetsStream{}
